@@ -278,8 +278,7 @@ Fixpoint drive (fuel : nat) (bufs : list N) (r : reader) : drive_result :=
 
 (* helper.go:ReadMessage — one call. The reader is fresh per call in Go
    (CheckUTF8 = true, OnIntermediate = read-all-and-append); only the source
-   persists. Final frame: io.ReadFull into a Length-sized buffer; otherwise
-   bytes.Buffer.ReadFrom (reads of any size to EOF). *)
+   persists. *)
 Fixpoint read_full_rd (fuel : nat) (need got : N) (r : reader) (racc : list (list byte))
   : (list byte * option rerror) * reader :=
   match fuel with
@@ -305,18 +304,13 @@ Definition read_message (fuel : nat) (bufs : list N) (s : src) (state : N)
   match e with
   | Some e => ((r_log r1, Some e), r_src r1)
   | None =>
-    if h_fin h then
-      let '((p, e2), r2) := read_full_rd fuel (Z.to_N (h_len h)) 0 r1 [] in
-      match e2 with
-      | Some e2 => ((r_log r2, Some e2), r_src r2)
-      | None => ((r_log r2 ++ [mkEv (h_op h) p false false], None), r_src r2)
-      end
-    else
-      let '((p, e2), r2) := read_to_eof fuel bufs bufs r1 [] in
-      match e2 with
-      | RIo EEOF => ((r_log r2 ++ [mkEv (h_op h) p false false], None), r_src r2)
-      | e2 => ((r_log r2, Some e2), r_src r2)
-      end
+    (* bytes.Buffer.ReadFrom(&rd): reads of any size until the Reader reports io.EOF
+       (the announced length is only a bounded pre-allocation hint) *)
+    let '((p, e2), r2) := read_to_eof fuel bufs bufs r1 [] in
+    match e2 with
+    | RIo EEOF => ((r_log r2 ++ [mkEv (h_op h) p false false], None), r_src r2)
+    | e2 => ((r_log r2, Some e2), r_src r2)
+    end
   end.
 
 (* repeated ReadMessage until an error *)
